@@ -114,6 +114,7 @@ def run(chk):
     for m in names.machine_variants():
         c07.decode(fc, prog, names, m, "read_io")
     chk.check(fc.forwarded >= 16, "T-BITS/ZXController::read_io/ula-paths", "only %d ULA read paths were judged" % fc.forwarded)
+    api_forwarding(chk, prog)
     return chk.finish(EXPL)
 
 
@@ -327,3 +328,64 @@ def mouse(chk, prog):
     ok = m2 is not None and tm.equiv(m2.fields[fi("x_pos_port")], tm.binop("add", X, dx)) is True and tm.equiv(m2.fields[fi("y_pos_port")], tm.binop("sub", Y, dy)) is True
     chk.check(ok, "T-BITS/KempstonMouse::send_pos_diff", "mouse counters are not X += dx, Y -= dy modulo 256: %s %s" % (
         m2.fields[fi("x_pos_port")] if m2 else None, m2.fields[fi("y_pos_port")] if m2 else None))
+
+
+def api_forwarding(chk, prog):
+    """The host reports input through Emulator::send_*: each is exactly one call of the handler the rules above judge
+    (the controller's method of the same name, or the Kempston joystick's `key`), with the host's arguments in order
+    and unchanged - a swapped x/y, an inverted or constant `pressed`, or a second call would make the judged handlers
+    describe something other than what the host did."""
+    from . import loaders as ld
+    chk.rule("T-PAIR/api", "Emulator::send_* = exactly one call of the judged handler with the host's arguments, in order, unchanged")
+    ln = ld.LoaderNames(prog)
+    cg, _fa = cc.scans(prog)
+    apis = sorted(p for p in prog.fns if p.startswith("rustzx_core::") and "Emulator::<H>::send_" in p and "::{" not in p.split("Emulator::<H>::")[1])
+    n = 0
+    for path in apis:
+        api = path.split("::")[-1]
+        fn = prog.fn(path)
+        key = "T-PAIR/Emulator::%s" % api
+        # the handler is whatever function of the core the wrapper calls (found in the call graph, not by name)
+        handlers = set(cp for cp, s_ in cg.calls.get(path, ()) if cp in prog.fns and prog.fns[cp].local and "Emulator" not in cp)
+        if not handlers:
+            chk.undecided_(key + "/anchor", "no handler found for %s" % api)
+            continue
+        w = Walker(prog)
+        w.opaque_paths |= handlers
+        w.effect_hook = lambda w_, st, cp, a, d, wh: EffectResult(None, havoc=False)
+        st = ld.emulator_state(w, prog, ln, "Sinclair48K")
+        args = [Ref(ld.EMU, (), True)]
+        for k in range(2, fn.body["argc"] + 1):
+            ty = fn.T[fn.body["locals"][k]]
+            if ty[0] == "int":
+                args.append(tm.sym("arg%d" % (k - 1), ty[1]))
+            elif ty[0] == "bool":
+                args.append(tm.sym("arg%d" % (k - 1), 1))
+            else:
+                args.append(SymObj("arg%d" % (k - 1), ty))
+        try:
+            rs = w.run(fn, args, genv={"H": ld.H}, state=st)
+        except Exception as e:
+            chk.undecided_(key, "could not explore: %s" % e)
+            continue
+        forwarded = 0
+        for r in rs:
+            if r.outcome != "return":
+                chk.fail(key + "/paths", "%s %s" % (r.outcome, r.detail))
+                continue
+            calls = [e for e in r.trace if e.path in handlers]
+            if not calls:
+                # the device is absent (optional joystick): nothing to report to
+                absent = any(c[0] == "variant" and c[2] == "None" for c in r.pc)
+                chk.check(absent, key, "%s returns without calling its handler although the device is present" % api)
+                continue
+            same = len(calls) == 1 and len(calls[0].args) - 1 == len(args) - 1 and all(
+                (x is y) or (isinstance(x, SymObj) and isinstance(y, SymObj) and x.name == y.name) for x, y in zip(calls[0].args[1:], args[1:]))
+            chk.check(same, key, "%s calls %s; documented: the handler once with the host's arguments (%s) in order, unchanged" % (
+                api, [(e.path.split("::")[-1], [getattr(a, "name", None) or (tm.show(a) if isinstance(a, T) else str(a)) for a in e.args[1:]]) for e in calls],
+                [getattr(a, "name", None) or tm.show(a) for a in args[1:]]))
+            forwarded += 1
+        chk.check(forwarded >= 1, key + "/forwards", "%s never reaches its handler" % api)
+        n += 1
+    chk.count("input-api-methods", n)
+    chk.floor("input-api-methods", 7)
